@@ -28,6 +28,7 @@ const (
 	findReqMAC1 = "tsig-reqmac-one-octet"  // a request MAC of exactly one octet: tsigBuffer's scratch buffer is one octet short
 	findDDDName = "tsig-name-ddd-upper"    // a key / algorithm name handed to TsigGenerate with an upper-case letter written as \DDD is digested unfolded
 	findNotLast = "tsig-not-last-accepted" // TsigVerify takes the first TSIG of the additional section, wherever it stands, and ignores what follows it
+	findNotAuth = "tsig-rcode-notauth"     // a message with RCODE 9 (NOTAUTH) signed by TsigGenerate does not verify: stripTsig returns ErrAuth before any MAC is looked at
 )
 
 // dddUpper finds the \DDD escapes of s that denote an upper-case ASCII letter (\075 is a K) and
@@ -126,6 +127,7 @@ type tsigCase struct {
 	SkipClass   bool    // set by the generator only (known finding #18): alterations of the TSIG CLASS field are not evaluated
 	SkipFudge0  bool    // set by the generator only (known finding): the alteration Fudge := 0 is not evaluated
 	SkipNotLast bool    // set by the generator only (known finding): messages made by a key holder whose TSIG is not the last additional record are not evaluated
+	SkipNotAuth bool    // set by the generator only (known finding): a correctly signed message with RCODE NOTAUTH is not required to verify
 }
 
 func labelsOf(text string) (ref.Labels, error) {
@@ -245,8 +247,12 @@ func checkTsig(c tsigCase) (err error) {
 
 	var out []byte
 	if c.RefSigned {
-		if !supported || unsignedErr {
+		if !supported {
 			return nil
+		}
+		if unsignedErr {
+			classes = append(classes, "unsigned-error-record(made by the reference)")
+			return checkUnsigned(c, packed, want, nil)
 		}
 		var serr error
 		out, _, serr = ref.TsigSign(packed, want, c.Secret, c.ReqMAC, c.TimersOnly)
@@ -340,7 +346,7 @@ func checkTsig(c tsigCase) (err error) {
 			if libVerify(out, c.Secret, c.ReqMAC, c.TimersOnly, c.Time) == nil {
 				return pbt.Errf("TsigVerify accepted an unsigned TSIG error response")
 			}
-			return nil
+			return checkUnsigned(c, packed, want, out)
 		}
 		if c.ZeroTime {
 			// the signing time is the wall clock at the call: take what is on the wire, it must lie
@@ -373,10 +379,14 @@ func checkTsig(c tsigCase) (err error) {
 		return pbt.Errf("reference rejects the output of TsigGenerate: %s", v.Why)
 	}
 	if notauth {
-		// TsigVerify reports every RCODE NOTAUTH message as ErrAuth before looking at the MAC
-		// (client-side surfacing of the server's refusal; documented at ErrAuth). Not part of the
-		// asserted domain; the only-if direction still holds trivially.
-		classes = append(classes, "rcode-notauth(not asserted)")
+		classes = append(classes, "rcode-notauth")
+	}
+	if notauth && c.SkipNotAuth {
+		// known finding: TsigVerify reports every RCODE NOTAUTH message as ErrAuth before looking at
+		// the MAC, so a correctly signed one (a signed BADTIME answer, RFC 8945 5.2.3) does not verify.
+		// While it is listed the if-direction is not asserted for these messages; the only-if
+		// direction holds trivially.
+		classes = append(classes, "rcode-notauth(known finding, not asserted)")
 		if libVerify(out, c.Secret, c.ReqMAC, c.TimersOnly, c.Time) == nil {
 			classes = append(classes, "rcode-notauth-accepted")
 		}
@@ -552,11 +562,35 @@ func checkTsig(c tsigCase) (err error) {
 	field("MAC: truncated to half", func(t *ref.Tsig) { t.MAC = t.MAC[:len(t.MAC)/2] })
 	field("MAC: truncated to 10 octets", func(t *ref.Tsig) { t.MAC = t.MAC[:10] })
 	field("MAC: empty", func(t *ref.Tsig) { t.MAC = nil })
+	// no MAC at all under every kind of Error value: an unsigned record is what an answer that
+	// reports BADSIG / BADKEY looks like (RFC 8945 5.3.2), and like every other record whose MAC is
+	// not the HMAC it never verifies - anyone can write one, no key is needed
+	for _, e := range unsignedErrors {
+		if e != base.Error {
+			e := e
+			field(fmt.Sprintf("MAC: empty and error := %d", e), func(t *ref.Tsig) { t.MAC, t.Error = nil, e })
+		}
+	}
 	// every proper prefix of the genuine MAC (MAC Size and RDLENGTH consistent), and the genuine MAC
 	// with octets added: RFC 8945 5.2.2.1 lets a verifier accept truncation down to max(10, half) by
 	// local policy; the pinned library has none and accepts the full-length MAC only
+	// (every length for messages whose flips are enumerated exhaustively; for the long ones, where one
+	// verification costs a walk over hundreds of records, the lengths around 1, 10, half and full
+	// plus four sampled ones)
+	prefixLens := map[int]bool{}
+	if n := len(base.MAC); len(out) > fullLimit() && n > 16 {
+		for _, k := range []int{1, 2, 9, 10, 11, n/2 - 1, n / 2, n/2 + 1, n - 2, n - 1} {
+			prefixLens[k] = true
+		}
+		for i := 0; i < 4 && i < len(c.Sample); i++ {
+			prefixLens[1+abs(c.Sample[i])%(n-1)] = true
+		}
+	}
 	for k := 1; k < len(base.MAC); k++ {
 		k := k
+		if len(prefixLens) > 0 && !prefixLens[k] {
+			continue
+		}
 		field(fmt.Sprintf("MAC: first %d of %d octets", k, len(base.MAC)), func(t *ref.Tsig) { t.MAC = t.MAC[:k] })
 	}
 	field("MAC: one octet appended", func(t *ref.Tsig) { t.MAC = append(t.MAC, 0x5a) })
@@ -666,6 +700,56 @@ func checkTsig(c tsigCase) (err error) {
 	return nil
 }
 
+// unsignedErrors: the Error values an unsigned record (MAC Size 0) is tried with: none, an RCODE,
+// the three TSIG errors, BADTRUNC and the largest value.
+var unsignedErrors = []uint16{0, 1, 16, 17, 18, 22, 65535}
+
+// checkUnsigned: TSIG records that carry no MAC. RFC 8945 5.3.2 sends an answer that reports
+// BADSIG or BADKEY without a MAC, and the receiver "MUST treat it as unauthenticated": whatever
+// Error, Time Signed and Other Data such a record names, with whatever request MAC and mode it is
+// checked and whenever, its MAC is not the RFC 8945 HMAC and it does not verify. libOut is the
+// output of TsigGenerate for the case (nil when the reference made the record).
+func checkUnsigned(c tsigCase, packed []byte, want ref.Tsig, libOut []byte) error {
+	type probe struct {
+		name string
+		msg  []byte
+		at   uint64
+	}
+	var ps []probe
+	if libOut != nil {
+		if _, last, _, err := ref.StripLast(libOut); err == nil {
+			if g, perr := ref.ParseTsig(libOut, last, false); perr == nil {
+				ps = append(ps, probe{"as TsigGenerate wrote it, checked at its own time signed", libOut, g.TimeSigned})
+			}
+		}
+	}
+	for _, e := range []uint16{want.Error, 33 - want.Error} { // BADSIG and BADKEY
+		u := want
+		u.Error, u.MAC = e, nil
+		ps = append(ps, probe{fmt.Sprintf("error %d, time signed = now", e), u.AppendTo(packed), c.Time})
+		u.TimeSigned = 0
+		ps = append(ps, probe{fmt.Sprintf("error %d, time signed 0, checked at 0", e), u.AppendTo(packed), 0},
+			probe{fmt.Sprintf("error %d, time signed 0, checked at fudge", e), u.AppendTo(packed), uint64(c.Fudge)})
+		u.TimeSigned, u.OtherData = c.Time, nil
+		ps = append(ps, probe{fmt.Sprintf("error %d, no other data, time signed = now", e), u.AppendTo(packed), c.Time})
+	}
+	type env struct {
+		req    []byte
+		timers bool
+	}
+	envs := []env{{c.ReqMAC, c.TimersOnly}, {c.ReqMAC, !c.TimersOnly}, {nil, false}}
+	for _, p := range ps {
+		for _, e := range envs {
+			pbt.Class("unsigned-record-probe")
+			if k, why := judge(p.msg, c.Secret, e.req, e.timers, p.at); k != vRejected {
+				return pbt.Errf("TsigVerify accepted a message whose TSIG record carries no MAC (%s; alg %s, request MAC %d octets, timers only %v, clock %d); reference: %s",
+					p.name, c.Alg, len(e.req), e.timers, p.at, why)
+			}
+		}
+	}
+	return nil
+}
+
 // holderTails: what follows a TSIG that is not the last additional record (see checkTsig).
 var holderTails = []struct {
 	name string
@@ -692,6 +776,13 @@ func otherTsig(g *ref.Tsig) *ref.Tsig {
 	t.KeyName = ref.Labels{[]byte("another-key")}
 	t.MAC = bytes.Repeat([]byte{0xa5}, len(g.MAC))
 	return &t
+}
+
+func abs(i int) int {
+	if i < 0 {
+		return -i
+	}
+	return i
 }
 
 func btoi(b bool) int {
@@ -862,6 +953,12 @@ func genTsig(t *rapid.T) tsigCase {
 		pbt.Excluded(findNotLast)
 		c.SkipNotLast = true
 	}
+	if pbt.Known(findNotAuth) {
+		c.SkipNotAuth = true
+		if c.Msg.Rcode&0xF == 9 {
+			pbt.Excluded(findNotAuth)
+		}
+	}
 	return c
 }
 
@@ -903,6 +1000,15 @@ func init() {
 		c := simple
 		c.RefSigned = true
 		c.SkipClass, c.SkipFudge0 = true, true
+		return checkTsig(c)
+	})
+	// a signed BADTIME answer (RFC 8945 5.2.3: RCODE NOTAUTH, TSIG error 18, the server's clock as
+	// other data) made by TsigGenerate, verified under the same key, request MAC and mode
+	pbt.Probe(findNotAuth, func() error {
+		c := simple
+		c.Msg.Response, c.Msg.Rcode = true, 9
+		c.Error, c.Other = 18, []byte{0, 0, 0x65, 0x53, 0xf1, 0}
+		c.ReqMAC = bytes.Repeat([]byte{7}, 32)
 		return checkTsig(c)
 	})
 }
